@@ -28,6 +28,10 @@ pub enum FileRef {
     Proc,
     /// /dev/null
     DevNull,
+    /// The case's own directory on device A, opened as a file (a directory has a change-time too).
+    DirA,
+    /// The case's own directory on device B.
+    DirB,
 }
 
 #[derive(Clone, Copy, Debug, PartialEq, Eq, Hash, Serialize, Deserialize)]
@@ -99,6 +103,8 @@ impl Env {
             FileRef::FreshB(i) => self.dir_b.as_ref()?.join(format!("fresh-{}", i % 4)),
             FileRef::Proc => PathBuf::from("/proc/self/stat"),
             FileRef::DevNull => PathBuf::from("/dev/null"),
+            FileRef::DirA => self.dir_a.clone(),
+            FileRef::DirB => self.dir_b.clone()?,
         })
     }
 
@@ -426,6 +432,8 @@ fn file_ref() -> impl Strategy<Value = FileRef> {
         3 => (0u8..4).prop_map(FileRef::FreshB),
         1 => Just(FileRef::Proc),
         1 => Just(FileRef::DevNull),
+        1 => Just(FileRef::DirA),
+        1 => Just(FileRef::DirB),
     ]
 }
 
@@ -482,7 +490,7 @@ fn replay(_ctx: &Ctx, _group: &str, case: &Value) -> CaseResult {
 pub fn def() -> PropDef {
     PropDef {
         id: "C19",
-        rule: "Each case runs in a fresh child process (the module state is process-global). A case is a sequence of 1..20 calls: add_trusted_path on the device holding /verif (A) or on /dev/shm (B) or on a path that can be neither opened nor created (must fail and change nothing), observe_file_time / maybe_observe_file_time on files created by the case on A or B, on files that existed long before (old change-times) on A, on /proc/self/stat and /dev/null, scan_base_time, get_base_time with 'now' at the epoch / far in the future / real, get_base_time_unlocked, should_refresh_base_time with generated leeway and 'now' (pure policy: it must not move the base time), chmod of a fresh file (bumps its change-time), short sleeps (and, in eight directed refresh-paths histories, sleeps of 1.1 - 2.1 s that let the base time go stale so that the refresh branches of maybe_observe_file_time and scan_base_time run), and replacing a registered trusted path on disk by a symbolic link to another file (on the same, the other writable, or a read-only device). With b = get_base_time_unlocked before and after every call: b never decreases; if it changed, a device is trusted, the call had trusted evidence to look at, and the new value is the change-time (ms, read back with stat) of a file the call could legitimately have observed (its argument if its device is trusted, the path being registered, or a registered path for scan / refresh - in every case only if the file it now resolves to lives on a trusted device); observe_file_time on an untrusted device reports nothing and on a trusted one reports exactly that file's change-time; every (base, voucher) pair returned by any call passes VouchedTime::check. The oracle never predicts whether the refresh policy fires. Non-trivial: an observation on an untrusted device followed later by one on a trusted device, or an old trusted file observed after a fresh one. Distinct: hash of the serialised case.",
+        rule: "Each case runs in a fresh child process (the module state is process-global). A case is a sequence of 1..20 calls: add_trusted_path on the device holding /verif (A) or on /dev/shm (B) or on a path that can be neither opened nor created (must fail and change nothing), observe_file_time / maybe_observe_file_time on files created by the case on A or B, on files that existed long before (old change-times) on A, on /proc/self/stat and /dev/null, on the case's own directories (opened as files), scan_base_time, get_base_time with 'now' at the epoch / far in the future / real, get_base_time_unlocked, should_refresh_base_time with generated leeway and 'now' (pure policy: it must not move the base time), chmod of a fresh file (bumps its change-time), short sleeps (and, in eight directed refresh-paths histories, sleeps of 1.1 - 2.1 s that let the base time go stale so that the refresh branches of maybe_observe_file_time and scan_base_time run), and replacing a registered trusted path on disk by a symbolic link to another file (on the same, the other writable, or a read-only device). With b = get_base_time_unlocked before and after every call: b never decreases; if it changed, a device is trusted, the call had trusted evidence to look at, and the new value is the change-time (ms, read back with stat) of a file the call could legitimately have observed (its argument if its device is trusted, the path being registered, or a registered path for scan / refresh - in every case only if the file it now resolves to lives on a trusted device); observe_file_time on an untrusted device reports nothing and on a trusted one reports exactly that file's change-time; every (base, voucher) pair returned by any call passes VouchedTime::check. The oracle never predicts whether the refresh policy fires. Non-trivial: an observation on an untrusted device followed later by one on a trusted device, or an old trusted file observed after a fresh one. Distinct: hash of the serialised case.",
         assumptions: &[
             "only two writable devices exist in the sandbox (the ext4 device holding /verif and /dev/shm); real NFS semantics are out of reach",
             "a call that fails with an I/O error ends the case without a verdict for the remaining calls",
